@@ -2,6 +2,7 @@ import Driver.Sim
 import Driver.Lib
 import Driver.Graph
 import Driver.Analysis
+import Driver.Verilog
 /-! Line-protocol driver: one JSON request per input line, one JSON reply per output line. -/
 open Lean
 namespace Pyrtl.Drv
@@ -20,6 +21,8 @@ def dispatch (j : Json) : Except String Json := do
   | "sanity" => cmdSanity j
   | "topo" => cmdTopo j
   | "timing" => cmdTiming j
+  | "vemit" => cmdVemit j
+  | "vsim" => cmdVsim j
   | _ => throw s!"unknown cmd {cmd}"
 
 partial def loop (hin hout : IO.FS.Stream) : IO Unit := do
